@@ -389,8 +389,11 @@ def run_check(prop, tier, seed, module, replay=None):
             data = json.load(f)
         module.replay(ctx, data)
     else:
+        import contextlib
+        import io as _io
         try:
-            module.run(ctx)
+            with contextlib.redirect_stdout(_io.StringIO()):   # the package prints progress notes
+                module.run(ctx)
         except DriverError as exc:
             ctx.tie_breaks.append(f"driver:{exc}")
         # tie broken, no oracle failure yet: focused search on the real code
@@ -398,7 +401,8 @@ def run_check(prop, tier, seed, module, replay=None):
             ctx.search_mode = True
             ctx.notes.append("tie broken; ran the focused search for a failing input (10x budget)")
             try:
-                module.run(ctx)
+                with contextlib.redirect_stdout(_io.StringIO()):
+                    module.run(ctx)
             except DriverError as exc:
                 ctx.tie_breaks.append(f"driver(search):{exc}")
     # known findings: replayed explicitly by the module on every run
